@@ -63,8 +63,8 @@ Qed.
 Definition date_ok (t : Z) : Prop := first_day * ns_per_day <= t < (first_day + Z.of_nat n_days) * ns_per_day.
 
 (* the domain: numbers printable below 2^51 units of their last decimal, durations below 2^62 ns,
-   dates 1969-2068, texts of valid characters; tyres, tags and sync points are handled by the
-   correspondence only *)
+   dates 1969-2068, texts of valid characters (tyre speed ratings without white space); sync points
+   are handled by the correspondence only *)
 Definition leaf_dom (l : leaf) : Prop :=
   match l with
   | LvStr t => forallb valid_char t = true
@@ -77,7 +77,9 @@ Definition leaf_dom (l : leaf) : Prop :=
   | LvRel dist off => printable 1 dist /\ 0 <= off < 2 ^ 62
   | LvInter l => Forall inter_ok l
   | LvGear _ r => printable 6 r
-  | LvTyre _ _ _ _ | LvTags _ | LvSync _ => False
+  | LvTyre _ _ sr _ => sr <> [] /\ has_ws sr = false /\ forallb valid_char sr = true
+  | LvTags l => Forall (fun t => forallb valid_char t = true) l
+  | LvSync _ => False
   end.
 
 Lemma clean_text_valid t : forallb valid_char t = true -> clean_text t = t.
@@ -86,10 +88,43 @@ Proof.
   unfold clean_text in *. cbn [map]. rewrite H1, IH by exact H2. reflexivity.
 Qed.
 
+(* tags: joined with commas, split at commas when read, joined again *)
+Definition join_tags : list text -> text :=
+  fix go (l : list text) : text := match l with [] => [] | [x] => x | x :: r => x ++ comma ++ go r end.
+Definition split_tags : text -> text -> list text :=
+  fix split (t : text) (cur : text) : list text :=
+    match t with
+    | [] => [rev' cur]
+    | c :: r => if c =? 44 then rev' cur :: split r [] else split r (c :: cur)
+    end.
+Lemma split_nonempty : forall t cur, split_tags t cur <> [].
+Proof. induction t as [|c r IH]; intros cur; cbn [split_tags]; [discriminate|]. destruct (c =? 44); [discriminate|apply IH]. Qed.
+Lemma join_split : forall t cur, join_tags (split_tags t cur) = rev cur ++ t.
+Proof.
+  induction t as [|c r IH]; intros cur; cbn [split_tags].
+  - cbn [join_tags]. unfold rev'. rewrite <- rev_alt, app_nil_r. reflexivity.
+  - destruct (Z.eqb_spec c 44) as [->|N].
+    + pose proof (split_nonempty r []) as Hne. destruct (split_tags r []) as [|y ys] eqn:E; [congruence|].
+      change (join_tags (rev' cur :: y :: ys)) with (rev' cur ++ comma ++ join_tags (y :: ys)).
+      rewrite <- E, IH. unfold rev', comma. rewrite <- rev_alt. reflexivity.
+    + rewrite IH. cbn [rev]. rewrite <- app_assoc. reflexivity.
+Qed.
+Lemma join_valid : forall l, Forall (fun t => forallb valid_char t = true) l -> forallb valid_char (join_tags l) = true.
+Proof.
+  induction l as [|x r IH]; intros H; [reflexivity|]. inversion H as [|? ? Hx Hr]; subst.
+  destruct r as [|y r']; [exact Hx|]. change (join_tags (x :: y :: r')) with (x ++ comma ++ join_tags (y :: r')).
+  rewrite !forallb_app, Hx, (IH Hr). reflexivity.
+Qed.
+
+Lemma tags_text l : leaf_text (LvTags l) = join_tags l.
+Proof. reflexivity. Qed.
+Lemma tags_quant x r : quant_leaf (LvTags (x :: r)) = Ok (LvTags (split_tags (clean_text (join_tags (x :: r))) [])).
+Proof. reflexivity. Qed.
+
 (* Decoding what was encoded and encoding it again writes, leaf by leaf, the same text. *)
 Theorem leaf_reencode l : leaf_dom l -> exists l', quant_leaf l = Ok l' /\ leaf_text l' = leaf_text l.
 Proof.
-  destruct l; cbn [leaf_dom]; intros H; try contradiction.
+  destruct l as [t|z|b|dp x|x txt|d|t|t|la lo|la lo al|d p i|dist off|li|n r|w p sr sz|tags|z|d]; cbn [leaf_dom]; intros H; try contradiction.
   - eexists. cbn [quant_leaf]. split; [reflexivity|]. cbn [leaf_text]. apply clean_text_valid. exact H.
   - eexists. split; reflexivity.
   - eexists. split; reflexivity.
@@ -104,5 +139,10 @@ Proof.
   - destruct H. apply rel_leaf_reencode; assumption.
   - apply inter_leaf_reencode. exact H.
   - apply gear_leaf_reencode. exact H.
+  - destruct H as [Hne [Hws Hv]]. exists (LvTyre w p (clean_text sr) sz). cbn [quant_leaf]. rewrite Hws.
+    destruct sr as [|c0 cr]; [congruence|]. cbn [orb]. split; [reflexivity|]. cbn [leaf_text]. rewrite (clean_text_valid _ Hv). reflexivity.
+  - destruct tags as [|t0 tr]; [eexists; split; reflexivity|].
+    eexists. split; [apply tags_quant|]. rewrite !tags_text, join_split. cbn [rev app].
+    apply clean_text_valid. apply join_valid. exact H.
   - eexists. split; reflexivity.
 Qed.
